@@ -212,3 +212,27 @@ contract(X + 'read_excel', P, label='same-formula-rows-with-an-element-column',
 
 from contracts import helpers
 helpers.install(P, 'formula')
+
+# ---- long sheets, columns mixing text and numbers, many repeated list columns ------------------------------------------------------
+N_ROWS = 16
+mixed = [[Const('sp%d' % i), (Const(' tag%d ' % i) if i % 3 == 0 else V()), V()] for i in range(N_ROWS)]
+contract(X + 'read_excel', P, label='sixteen-rows-with-a-column-mixing-text-and-numbers',
+         args=dict(io=Table(['name', 'label', 'potentialenergy'], mixed)),
+         ensures=[('one-record-per-row-in-order', 'len(result) == %d and [r["name"] for r in result] == %r' % (N_ROWS, ['sp%d' % i for i in range(N_ROWS)])),
+                  ('text-cells-trimmed', 'all(result[i]["label"] == "tag" + str(i) for i in range(0, %d, 3))' % N_ROWS),
+                  ('numeric-cells-kept', 'all(result[i]["label"] == cell(io, i, 1) for i in range(%d) if i %% 3 != 0)' % N_ROWS),
+                  ('other-column', 'all(result[i]["potentialenergy"] == cell(io, i, 2) for i in range(%d))' % N_ROWS)],
+         cross_check=False)
+for n_rot, n_vib in ((5, 8), (4, 1), (8, 30)):
+    hdr = ['name'] + ['rot_temperature'] * n_rot + ['vib_wavenumber'] * n_vib
+    contract(X + 'read_excel', P, label='%d-rot_temperature-and-%d-vib_wavenumber-columns' % (n_rot, n_vib),
+             args=dict(io=Table(hdr, [[Const('A')] + [V() for _ in range(n_rot + n_vib)],
+                                      [Const('B')] + [(V() if k % 2 else None) for k in range(n_rot + n_vib)]])),
+             ensures=[('row-0-lists-every-cell-in-column-order',
+                       'result[0]["rot_temperatures"] == [cell(io, 0, j) for j in range(1, %d)] and '
+                       'result[0]["vib_wavenumbers"] == [cell(io, 0, j) for j in range(%d, %d)]' % (1 + n_rot, 1 + n_rot, 1 + n_rot + n_vib)),
+                      ('row-1-lists-its-non-empty-cells-in-column-order',
+                       'result[1].get("rot_temperatures", []) == [cell(io, 1, j) for j in range(1, %d) if (j - 1) %% 2] and '
+                       'result[1].get("vib_wavenumbers", []) == [cell(io, 1, j) for j in range(%d, %d) if (j - 1) %% 2]'
+                       % (1 + n_rot, 1 + n_rot, 1 + n_rot + n_vib))],
+             cross_check=False)
